@@ -32,7 +32,7 @@ func init() {
 			}
 			return fw.Meta{N: n, Level: "exploration", Chunk: 50, CaseTimeoutS: 120, MinNT: 300,
 				Rule:        "seeded writer programs (Write/WriteSync/Seek back to an earlier record boundary/rejected Seek into the header or past the size/Close) over nil, empty, random, compressible and marker-laden records with sizes around buffer, page and 4 KiB-window boundaries (every 100th program also around 512 KiB and 1 MiB) x 4 compression types x write buffers {8,13,64,4096,64Ki,default} x buffered/direct-I/O writer; then (a) sequential reader programs mixing ReadNext and SkipNext with read buffers {1,3,16,37,4096,64Ki,4Mi} (every other second program over a file on disk through the direct-I/O reader factory, block-multiple buffers), both calls must report EOF at the end (also behind the zero padding of direct-I/O files), (b) ReadNextAt at every returned offset, (c) SeekNext from every byte offset 0..size (files <= 8 KiB; record starts +-2 and window boundaries beyond). Non-trivial: >=3 surviving records incl. a nil or marker-ending one and >=1 skip; distinct by hash of program+config. Payloads embedding a complete valid record image are not generated (format cannot distinguish them)",
-				MinObs:      map[string]int64{"seeknext_offsets_checked": 100000, "skips_checked": 1000, "nil_records_skipped": 50, "seek_back_programs": 100, "rejected_seeks": 100, "readat_checked": 5000, "directio_files": 10, "records_of_half_a_mebibyte_or_more": 10, "directio_reader_runs": 30, "records_ending_in_marker_prefix": 200},
+				MinObs:      map[string]int64{"seeknext_offsets_checked": 100000, "skips_checked": 1000, "nil_records_skipped": 50, "seek_back_programs": 100, "rejected_seeks": 100, "readat_checked": 5000, "directio_files": 10, "directio_files_with_one_or_two_padding_bytes": 20, "records_of_half_a_mebibyte_or_more": 10, "directio_reader_runs": 30, "records_ending_in_marker_prefix": 200},
 				Assumptions: []string{"direct-I/O writer is used without Seek/WriteSync (documented limitation) and with block-multiple buffers"},
 			}
 		},
@@ -85,7 +85,88 @@ func endsInMarkerPrefix(b []byte) bool {
 	return bytes.HasSuffix(b, []byte{0x91}) || bytes.HasSuffix(b, []byte{0x91, 0x8d})
 }
 
+// c04PaddingSweep: direct-I/O files are padded with zeros to the next block boundary; the end of the data is swept across
+// the last 30 bytes of a block (padding of 0, 1, 2, ... bytes) and every reader must still report the one record and then
+// end-of-file.
+func c04PaddingSweep(c *fw.Case) {
+	dir := c.DiskDir()
+	for comp := 0; comp < 2; comp++ {
+		for L := 4096 - 8 - 32; L <= 4096-8+2; L++ {
+			path := filepath.Join(dir, "pad.rio")
+			_ = os.Remove(path)
+			rec := bytes.Repeat([]byte{byte('a' + L%26)}, L)
+			if comp == 1 {
+				rec = gen.Bytes(c.R, L) // incompressible under snappy: the stored length stays close to L
+			}
+			w, err := recordio.NewFileWriter(recordio.Path(path), recordio.CompressionType(comp), recordio.DirectIO(), recordio.BufferSizeBytes(4096))
+			if err == nil {
+				err = w.Open()
+			}
+			if err != nil {
+				c.Violate("recordio/direct-io/open-error", "%v", err)
+				return
+			}
+			if _, err := w.Write(rec); err != nil {
+				c.Violate("recordio/write-error", "padding sweep: %v", err)
+				return
+			}
+			end := w.Size()
+			if err := w.Close(); err != nil {
+				c.Violate("recordio/close-error", "padding sweep: %v", err)
+				return
+			}
+			st, _ := os.Stat(path)
+			pad := st.Size() - int64(end)
+			c.Obs("directio_padding_lengths_swept", 1)
+			if pad >= 1 && pad <= 2 {
+				c.Obs("directio_files_with_one_or_two_padding_bytes", 1)
+			}
+			for _, direct := range []bool{false, true} {
+				ropts := []recordio.FileReaderOption{recordio.ReaderPath(path)}
+				if direct {
+					ropts = append(ropts, recordio.ReaderBufferSizeBytes(4096), recordio.ReaderIoFactory(recordio.DirectIOFactory{}))
+				}
+				rd, err := recordio.NewFileReader(ropts...)
+				if err == nil {
+					err = rd.Open()
+				}
+				if err != nil {
+					c.Violate("recordio/seq/open", "padding sweep (data ends %d bytes before the block end): %v", pad, err)
+					return
+				}
+				got, err := rd.ReadNext()
+				if err != nil || !bytes.Equal(got, rec) {
+					c.Violate("recordio/seq/wrong-record/directio", "padding sweep comp=%d (data ends %d bytes before the block end) directReader=%v: first ReadNext = (%d bytes,%v)", comp, pad, direct, len(got), err)
+					_ = rd.Close()
+					return
+				}
+				if _, err := rd.ReadNext(); !errors.Is(err, io.EOF) {
+					c.Violate("recordio/seq/no-eof/directio/padding", "padding sweep comp=%d: the data ends %d bytes before the block end; ReadNext after the only record returned %v instead of EOF (directReader=%v)", comp, pad, err, direct)
+					_ = rd.Close()
+					return
+				}
+				_ = rd.Close()
+			}
+			mr, err := recordio.NewMemoryMappedReaderWithPath(path)
+			if err == nil && mr.Open() == nil {
+				if _, _, err := mr.SeekNext(end); !errors.Is(err, io.EOF) {
+					c.Violate("recordio/seeknext/no-eof-past-last-record/directio/padding", "padding sweep comp=%d: SeekNext(%d) with %d padding bytes behind the data returned %v instead of EOF", comp, end, pad, err)
+					_ = mr.Close()
+					return
+				}
+				_ = mr.Close()
+			}
+		}
+	}
+}
+
 func runC04(c *fw.Case) {
+	if c.Idx%50 == 7 {
+		c04PaddingSweep(c)
+		if c.Violated() {
+			return
+		}
+	}
 	r := c.R
 	comp := r.Intn(4)
 	direct := r.Intn(12) == 0
